@@ -74,7 +74,8 @@ def oracle(case: dict, recs: list[dict]) -> list[Failure]:
 
     hw = None
     ever_run = False
-    restart_in_run = False      # a Restart was requested during the current / last run
+    any_restart = False         # a Restart was requested at some point of this case
+    ended_by_stop = True        # how the last run ended (a Restart leaves the outputs as they are for one tick)
     error_seen = False          # an error was injected while no run was active (outside the property)
     touched: set[int] = set()   # registers a user-sourced command may have written during the current pause
     recent_user: set[int] = set()   # registers of user UOD requests accepted since the previous tick
@@ -86,12 +87,15 @@ def oracle(case: dict, recs: list[dict]) -> list[Failure]:
                 error_seen = True
         if op[0] == "user" and r["res"] == "ok":
             if op[1] == "Restart":
-                restart_in_run = True
+                any_restart = True
             if op[1] in UCMDS:
                 recent_user.add(int(op[1][1]))
         if op[0] == "tick":
             if any(x.startswith("m.restart") for x in r.get("items", [])):
-                restart_in_run = True
+                any_restart = True
+            if prev is not None and prev["started"] and not r["started"]:
+                # Stop writes the safe process image in its last tick; the first half of a Restart writes nothing
+                ended_by_stop = (not any_restart) or len(r.get("writes", [])) > 0
             touched |= recent_user
             recent_user = set()
             for name, is_user in list(r["uex"]) + (list(prev["uex"]) if prev is not None else []):
@@ -113,8 +117,6 @@ def oracle(case: dict, recs: list[dict]) -> list[Failure]:
                         key = "unsafe-output-while-paused"
                     fail(key, i, f"write_batch {vals} while paused; user-commanded registers {sorted(touched)}")
             hw = list(vals)
-        if prev is not None and r["run_id"] is not None and r["run_id"] != prev["run_id"]:
-            restart_in_run = False
         if r["started"]:
             ever_run = True
         # clause 1 at the end of the operation
@@ -124,7 +126,7 @@ def oracle(case: dict, recs: list[dict]) -> list[Failure]:
                     fail("no-safe-write-before-first-run", i, "nothing has been written to the hardware")
                 elif any(hw[j] != s for j, s in safe):
                     fail("unsafe-before-first-run", i, f"hardware image {hw}")
-            elif r["state"] == "Stopped" and not restart_in_run and hw is not None and \
+            elif r["state"] == "Stopped" and ended_by_stop and hw is not None and \
                     any(hw[j] != s for j, s in safe):
                 fail("unsafe-after-stop", i, f"hardware image {hw}")
         if op[0] == "tick" and not (r["started"] and r["paused"]):
